@@ -970,7 +970,41 @@ impl G<'_> {
         }
     }
 
+    /// `(a)eq(b)`, `'x'ne'y'`: a mnemonic needs no blanks next to parentheses and quotes
+    fn glued_mnemonic_expr(&mut self, float: bool, depth: usize) {
+        self.p.kinds.insert("glued-mnemonic");
+        let side = |g: &mut Self| {
+            if g.r.chance(1, 2) {
+                let lp = g.pos();
+                g.put("(");
+                g.p.marks.push(Mark::Op { pos: lp, len: 1, ty: TokenType::LPAREN });
+                g.operand(float, depth + 2);
+                let rp = g.pos();
+                g.put(")");
+                g.p.marks.push(Mark::Op { pos: rp, len: 1, ty: TokenType::RPAREN });
+            } else {
+                g.put("'q r'");
+            }
+        };
+        side(self);
+        // a quote followed by `ne` would read as the name-literal suffix `n`
+        let after_quote = self.p.s.ends_with('\'');
+        let (t, ty) = loop {
+            let m = self.r.pick(MNEMONIC_OPS);
+            if !(after_quote && m.0.starts_with(['n', 'N'])) {
+                break m;
+            }
+        };
+        let pos = self.pos();
+        self.put(t);
+        self.p.marks.push(Mark::Op { pos, len: t.len(), ty });
+        side(self);
+    }
+
     fn expr_inner(&mut self, float: bool, depth: usize) {
+        if depth < 2 && self.room() && self.r.chance(1, 12) {
+            return self.glued_mnemonic_expr(float, depth);
+        }
         // optional prefix operator
         if self.r.chance(1, 8) {
             let (t, ty): (&str, TokenType) = self.r.pick(&[
